@@ -221,7 +221,49 @@ var optAbbrev = map[string]string{
 
 var clusters = []string{"prod", "staging", "dev", "verif"}
 
+// hostile variable VALUES by class. "Substituted everywhere" means verbatim text: none of these may be
+// interpreted (as regexp replacement syntax, as a format string, as an escape sequence).
+var hostileValues = map[string][]string{
+	"dollar-sign":      {"$1", "a${1}b", "${name}", "x$$y", "tail$", "$1.internal.test", "${any}", "$0$1$2", "p$"},
+	"backslash":        {`a\1b`, `a\\b`, `a\nb`, `\1x`, `x\`, `a\tb\$1`},
+	"percent-verb":     {"a%sb", "v%d", "100%%", "%v%x", "a%!b", "x%"},
+	"nested-reference": {"{{who}}", "{{", "}}", "a{{b", "{{team}}x", "}}{{"},
+	// YAML-significant characters: the substitution happens on the raw text before YAML is parsed and the
+	// docs do not promise that values are YAML-safe => the whole document is a don't-care zone
+	"yaml-significant": {"a #b", "k: v", "it's", `say "hi"`, " lead", "trail ", "x\ny: z", "- item", "&anchor", "*alias"},
+}
+var hostileOrder = []string{"dollar-sign", "dollar-sign", "backslash", "percent-verb", "percent-verb", "nested-reference", "yaml-significant"}
+
+// classifyValue names the class of a variable value (strongest first).
+func classifyValue(v string) string {
+	switch {
+	case strings.ContainsAny(v, "#:'\"\n&*") || strings.HasPrefix(v, "- ") || v != strings.TrimSpace(v):
+		return "yaml-significant"
+	case strings.Contains(v, "{{") || strings.Contains(v, "}}"):
+		return "nested-reference"
+	case strings.Contains(v, "$"):
+		return "dollar-sign"
+	case strings.Contains(v, "\\"):
+		return "backslash"
+	case strings.Contains(v, "%"):
+		return "percent-verb"
+	}
+	return ""
+}
+
+// classifyName names the class of a variable NAME.
+func classifyName(k string) string {
+	switch {
+	case strings.ContainsAny(k, ".+*?()[]|^$\\"):
+		return "regex-metachar-name"
+	case k != strings.ToLower(k):
+		return "case-variant-name"
+	}
+	return ""
+}
+
 var varValues = map[string]string{
+	"tail": "$1.internal.test", "pat": "${any}", "a.b": "dotted", "a+": "plus", "Team": "RED", "hv": "h%sv",
 	"root_domain": "example.org", "team": "blue", "grp": "wheel@corp.test", "dom": "partner", "who": "dave",
 	"prefix": "v2", "t": "7s", "slug": "onelogin", "sfx": "-z",
 }
@@ -254,13 +296,14 @@ func (g *gen) listValues(key string) []string {
 	var pool []string
 	switch key {
 	case "allowed_groups":
-		pool = []string{"grp-a@corp.test", "grp-b@corp.test", "ops@corp.test", "team-" + g.tv("team") + "@corp.test", "grp-c" + g.tv("sfx") + "@corp.test", g.tv("grp")}
+		pool = []string{"grp-a@corp.test", "grp-b@corp.test", "ops@corp.test", "team-" + g.tv("team") + "@corp.test", "grp-c" + g.tv("sfx") + "@corp.test", g.tv("grp"),
+			"grp-" + g.tv("a.b") + "@corp.test", g.tv("Team") + "-leads@corp.test", "grp-{{ team }}@corp.test", "grp-" + g.tv("a+") + "-" + g.tv("aXb") + "@corp.test"}
 	case "allowed_email_domains":
 		pool = []string{"corp.test", "example.com", "*", g.tv("dom") + ".test", "sub" + g.tv("sfx") + ".corp.test"}
 	case "allowed_email_addresses":
 		pool = []string{"alice@corp.test", "bob@example.com", g.tv("who") + "@corp.test", "carol" + g.tv("sfx") + "@corp.test"}
 	case "skip_auth_regex":
-		pool = []string{`^/health$`, `^/public/.*`, `\.css$`, `^/api/v[0-9]+/ping$`, `^/` + g.tv("prefix") + `/open$`, `^/hook` + g.tv("sfx") + `/$`, `^\/github-webhook\/$`}
+		pool = []string{`^/health$`, `^/public/.*`, `\.css$`, `^/api/v[0-9]+/ping$`, `^/` + g.tv("prefix") + `/open$`, `^/hook` + g.tv("sfx") + `/$`, `^\/github-webhook\/$`, `^/public/` + g.tv("pat"), `^/` + g.tv("a.b") + `/.*$`}
 	}
 	n := 1 + g.r.Intn(3)
 	if n > len(pool) {
@@ -316,7 +359,7 @@ func (g *gen) options(density int, force ...string) (*node, []string) {
 				break
 			}
 			keys := []string{"X-Frame-Options", "X-Custom-Header", "Authorization", "X-Env"}
-			vals := []string{"DENY", "SAMEORIGIN", "Basic dXNlcjpwYXNz", "v-" + g.tv("cluster"), "x" + g.tv("sfx") + "y"}
+			vals := []string{"DENY", "SAMEORIGIN", "Basic dXNlcjpwYXNz", "v-" + g.tv("cluster"), "x" + g.tv("sfx") + "y", "h-" + g.tv("hv"), g.tv("Team") + "/" + g.tv("team"), "{{team }}"}
 			for _, i := range g.r.Perm(len(keys))[:1+g.r.Intn(2)] {
 				m.add(keys[i], sc(q(vals[g.r.Intn(len(vals))])))
 			}
@@ -378,7 +421,11 @@ func (g *gen) routeFields(m *node, i int, tag, typ string, from, to bool) {
 			m.add("from", sc(q(fmt.Sprintf(`^svc%d%s--(.*)\.sso\.%s\.test$`, i, tag, g.tv("cluster")))))
 		}
 		if to {
-			m.add("to", sc(q(fmt.Sprintf("svc%d%s--$1.%s.internal.test", i, tag, g.tv("cluster")))))
+			if g.p(35) {
+				m.add("to", sc(q(fmt.Sprintf("svc%d%s--%s", i, tag, g.tv("tail")))))
+			} else {
+				m.add("to", sc(q(fmt.Sprintf("svc%d%s--$1.%s.internal.test", i, tag, g.tv("cluster")))))
+			}
 		}
 		m.add("type", sc("rewrite"))
 		return
@@ -1020,7 +1067,7 @@ func (g *gen) chooseCluster() string {
 	return cls
 }
 
-var tmplRe = regexp.MustCompile(`\{\{([a-z_0-9]+)\}\}`)
+var tmplRe = regexp.MustCompile(`\{\{([^{}\s]+)\}\}`)
 
 // genDoc generates case i of a stream.
 func genDoc(r *rand.Rand, i int, malformedPct int) *docCase {
@@ -1076,6 +1123,7 @@ func genDoc(r *rand.Rand, i int, malformedPct int) *docCase {
 	}
 	sort.Strings(names)
 	var tdesc []string
+	hostileDoc := g.p(40)
 	for _, k := range names {
 		switch {
 		case k == "cluster":
@@ -1101,6 +1149,8 @@ func genDoc(r *rand.Rand, i int, malformedPct int) *docCase {
 			default:
 				tdesc = append(tdesc, k+":missing")
 			}
+		case k == "aXb":
+			tdesc = append(tdesc, k+":missing") // decoy: only a loader that reads the NAME `a.b` as a pattern would fill it
 		default:
 			if g.p(85) {
 				dc.Vars[k] = varValues[k]
@@ -1109,6 +1159,19 @@ func genDoc(r *rand.Rand, i int, malformedPct int) *docCase {
 				tdesc = append(tdesc, k+":missing")
 			}
 		}
+		// hostile values: in ~40% of the documents a provided variable gets a value from a hostile class
+		if _, set := dc.Vars[k]; set && hostileDoc && k != "cluster" && k != "root_domain" && k != "t" && g.p(55) {
+			cl := hostileOrder[g.r.Intn(len(hostileOrder))]
+			dc.Vars[k] = hostileValues[cl][g.r.Intn(len(hostileValues[cl]))]
+		}
+		if v, set := dc.Vars[k]; set {
+			if cl := classifyValue(v); cl != "" {
+				tdesc = append(tdesc, k+"="+cl)
+			}
+		}
+	}
+	if used["Team"] && g.p(50) {
+		dc.Vars["TEAM"] = "shouting" // a name differing only by case that the document does not reference
 	}
 	if g.p(20) {
 		dc.Vars["unused_variable"] = "zzz"
